@@ -201,6 +201,10 @@ class RSAKey(object):
         :type sLen: int
         :param sLen: length of salt"""
         EM = self.EMSA_PSS_encode(mHash, numBits(self.n) - 1, hAlg, sLen)
+        # EM has ceil((modBits - 1) / 8) bytes: one byte less than the modulus
+        # when modBits = 1 (mod 8); the raw operation works on modulus-sized
+        # strings (RFC 8017 8.1.1 step 2: OS2IP(EM) is what gets signed)
+        EM = bytearray(max(numBytes(self.n) - len(EM), 0)) + EM
         try:
             ret = self._raw_private_key_op_bytes(EM)
         except ValueError:
@@ -281,6 +285,13 @@ class RSAKey(object):
             EM = self._raw_public_key_op_bytes(S)
         except ValueError:
             raise InvalidSignature("Invalid signature")
+        # RFC 8017 8.1.2 step 2c: EM = I2OSP(m, emLen) with
+        # emLen = ceil((modBits - 1) / 8), which may be one byte shorter than
+        # the modulus; the extra leading byte must be zero
+        emLen = divceil(numBits(self.n) - 1, 8)
+        if any(EM[:len(EM) - emLen]):
+            raise InvalidSignature("Invalid signature")
+        EM = EM[len(EM) - emLen:]
         result = self.EMSA_PSS_verify(mHash, EM, numBits(self.n) - 1,
                                       hAlg, sLen)
         if result:
